@@ -4,7 +4,6 @@ use super::common::*;
 use crate::fabric::LinkCfg;
 use crate::runner::{ScenFuture, Scenario};
 use crate::world::*;
-use anemo::types::PeerEvent;
 use serde_json::json;
 use std::time::Duration;
 
@@ -46,6 +45,9 @@ fn run(input: RunInput) -> ScenFuture {
         let b = w.start_node(w.spec(2, cfg.clone()), svc_b).unwrap();
         let mut sa = Subscription::new(&a.net).unwrap();
         let mut sb = Subscription::new(&b.net).unwrap();
+        // events of both sides enter the order signature in the order they are published
+        watch_events(&w, &a);
+        watch_events(&w, &b);
 
         let off_a = w.param("dial_offset_a_us", 0, 40_000) as u64;
         let off_b = w.param("dial_offset_b_us", 0, 40_000) as u64;
@@ -92,12 +94,7 @@ fn run(input: RunInput) -> ScenFuture {
         sa.drain(w.now_ns());
         sb.drain(w.now_ns());
         for (n, s) in [("a", &sa), ("b", &sb)] {
-            for e in &s.history {
-                w.event(match &e.ev {
-                    PeerEvent::NewPeer(_) => format!("{n}:New"),
-                    PeerEvent::LostPeer(_, r) => format!("{n}:Lost({r:?})"),
-                });
-            }
+            let _ = n;
             if let Some(e) = &s.alternation_error {
                 w.violate("event-alternation", n, e.clone());
             }
